@@ -196,3 +196,49 @@ fn c01_in_vm_range() {
     assert!(in48(n) == (wrap48(n) == n));
     kani::cover!(!in48(n), "REQ out of range");
 }
+
+// ---- O2: unary folds (try_fold_unary is pub(super) of expr::unary, visible from this descendant of expr)
+use aelys_syntax::UnaryOp;
+
+fn lit(kind: TypedExprKind, ty: InferType) -> TypedExpr {
+    TypedExpr::new(kind, ty, Span::new(0, 0, 0, 0))
+}
+
+#[kani::proof]
+#[kani::unwind(2)]
+fn c01_fold_unary_neg_float() {
+    let f = f64::from_bits(kani::any());
+    let mut folder = ConstantFolder::new();
+    let (operand, orig) = (lit(TypedExprKind::Float(f), InferType::F64), original());
+    let r = folder.try_fold_unary(UnaryOp::Neg, &operand, &orig);
+    if let Some(e) = &r {
+        match &e.kind {
+            // the VM negates by flipping the sign bit (-f), signed zeros and NaN payload sign included
+            TypedExprKind::Float(v) => assert!(v.to_bits() == (-f).to_bits() || (f.is_nan() && v.is_nan())),
+            _ => assert!(false, "negated float folded to another kind"),
+        }
+    }
+    kani::cover!(r.is_some() && f == 0.0, "REQ a zero negated");
+    std::mem::forget(r); std::mem::forget(operand); std::mem::forget(orig); std::mem::forget(folder);
+}
+
+#[kani::proof]
+#[kani::unwind(2)]
+fn c01_fold_unary_int() {
+    let n: i64 = kani::any();
+    let bitnot: bool = kani::any();
+    let mut folder = ConstantFolder::new();
+    let (operand, orig) = (lit(TypedExprKind::Int(n), InferType::I64), original());
+    let r = folder.try_fold_unary(if bitnot { UnaryOp::BitNot } else { UnaryOp::Neg }, &operand, &orig);
+    if let Some(e) = &r {
+        assert!(in48(n));
+        match &e.kind {
+            // VM: Value::int(-n) / Value::int(!n), wrapped to 48 bits
+            TypedExprKind::Int(v) => assert!(*v == wrap48(if bitnot { !n } else { n.wrapping_neg() })),
+            _ => assert!(false, "unary int fold produced another kind"),
+        }
+    }
+    kani::cover!(r.is_some() && bitnot, "REQ bitwise not folded");
+    kani::cover!(r.is_none() && in48(n), "negation of INT_MIN is left to the VM");
+    std::mem::forget(r); std::mem::forget(operand); std::mem::forget(orig); std::mem::forget(folder);
+}
